@@ -33,7 +33,7 @@ EXHAUSTIVE = {"quick": True, "thorough": True}
 NSHARDS = {"quick": 4, "thorough": 4}
 EXPECTED = 9 * 216 * 1008 * 3
 THRESHOLDS = {"quick": {"c15:enumerated": EXPECTED, "c15:reference-enumerated": EXPECTED, "c15:names-digested": EXPECTED,
-                        "c15:element-classes": 10, "c15:re-enumerated-after-helpers": 1, "c15:re-enumerated-after-new-element-class": 6, "c15:path-tokenizers-after-new-step-classes": 1, "c15:hash-checked": 300000, "c15:cross-process": 1500, "c15:hashseeds": 3,
+                        "c15:element-classes": 10, "c15:re-enumerated-after-helpers": 1, "c15:interleaved-enumerations": 4, "c15:re-enumerated-after-new-element-class": 6, "c15:path-tokenizers-after-new-step-classes": 1, "c15:hash-checked": 300000, "c15:cross-process": 1500, "c15:hashseeds": 3,
                         "c15:save-load": 300, "c15:identity-after-use": 250, "c15:pickled": 250, "c15:zanj-file": 30, "c15:legacy-checked": 40000, "c15:from_legacy": 3,
                         "c15:legacy-neighbours": 20}}
 THRESHOLDS["thorough"] = {**THRESHOLDS["quick"], "c15:hash-checked": EXPECTED, "c15:legacy-checked": EXPECTED, "c15:save-load": 2000}
@@ -435,6 +435,14 @@ def subclass_child(ctx):
         ctx.check(ok, "C15/enumeration-ignores-or-mangles-element-class-defined-after-first-enumeration",
                   f"{key}: {rec['before']} instances, then a new concrete class with one boolean field, then {rec['after']} (missing {rec['missing']}, extra {rec['extra']}, "
                   f"duplicates {rec['after_dups']}, stable on a third enumeration: {rec['again_same']})", dict(base=key, **rec))
+    for key, rec in (r.get("interleaved") or {}).items():
+        if "error" in rec:
+            ctx.tally("c15:interleaved-enumeration-failed(not judged)")
+            ctx.note(f"c15 interleaved {key}: {rec['error']}")
+            continue
+        ctx.ev(); ctx.tally("c15:interleaved-enumerations")
+        ctx.check(bool(rec["same"]), "C15/enumeration-depends-on-another-enumeration-being-alive",
+                  f"{key}: alone {rec['alone_vf']} (validated) / {rec['alone_raw']} (raw); with the other one alive: validated {rec['inner_vf']} and {rec['outer_vf']}, raw {rec['inner_raw']} and {rec['outer_raw']}", dict(base=key, **rec))
     pl = r.get("plain") or {}
     if pl:
         ctx.ev(); ctx.tally("c15:re-enumerated-plain-dataclasses")
@@ -454,12 +462,38 @@ def subclass_child(ctx):
                   f"classes {pa['after']} with {pa['sizes_after']} x {st['after']} (expected {n_paths(pa['sizes_after'], st['after'])})", pa)
 
 
+def interrupt_child_start(ctx):
+    return subprocess.Popen([PY, "-m", "vmon.c15_interrupt_child"], stdout=subprocess.PIPE, stderr=subprocess.PIPE, text=True, env=shard_env(dict(PYTHONHASHSEED="0")), cwd=VERIF_ROOT)
+
+
+def interrupt_child_finish(ctx, proc):
+    try:
+        so, se = proc.communicate(timeout=1800)
+    except subprocess.TimeoutExpired:
+        proc.kill()
+        ctx.tally("c15:interrupt-child-timeout(not judged)")
+        return
+    if proc.returncode != 0 or "{" not in so:
+        ctx.tally("c15:interrupt-child-failed(not judged)")
+        ctx.note(f"c15 interrupt child failed rc={proc.returncode}: {se[-300:]}")
+        return
+    r = json.loads(so[so.index("{"):])
+    if r.get("interrupted") is not True:
+        ctx.tally("c15:first-enumeration-not-interrupted(not judged)")
+        return
+    ctx.ev(); ctx.tally("c15:re-enumerated-after-interrupted-first-enumeration")
+    ctx.check(r["n_after_interrupt"] == EXPECTED == r["n_uncached"], "C15/enumeration-incomplete-after-an-interrupted-one",
+              f"the first get_all_tokenizers() of the process was interrupted after ~{0.85 * r['seconds_uncached']:.0f} s; the next call returned {r['n_after_interrupt']} tokenizers (uncached enumeration: {r['n_uncached']})", r)
+
+
 def run(ctx):
     if ctx.shard == 0:
         hp = helpers_child_start(ctx)
+        ip = interrupt_child_start(ctx)
         subclass_child(ctx)
         enumeration(ctx)
         element_classes(ctx)
         helpers_child_finish(ctx, hp)
+        interrupt_child_finish(ctx, ip)
     else:
         identity_checks(ctx)
